@@ -1,0 +1,65 @@
+//go:build verif
+
+// Contracts for the deductive verification in /verif (comment-only; compiled code is unaffected).
+package rules
+
+// The rules interface as the ruler sees it. rules/standard is proved to refine these clauses (plans: "refine");
+// services/ruler/golang is verified against them.
+
+//@ iface Service.OnSign(self, ctx, metadata, req)
+//@ requires req != nil
+//@ ensures [verdicts] result == APPROVED || result == DENIED || result == FAILED
+//@ ensures [noslashable] result == APPROVED ==> prefix4(req.Domain) != ATT && prefix4(req.Domain) != PROP
+
+//@ iface Service.OnSignBeaconAttestation(self, ctx, metadata, req)
+//@ requires metadata != nil && req != nil && req.Source != nil && req.Target != nil
+//@ modifies db
+//@ ensures [verdicts] result == APPROVED || result == DENIED || result == FAILED
+//@ ensures [sound] result == APPROVED ==> old(wmAttOk(bytes(metadata.PubKey))) && attOK(old(wmAttS(bytes(metadata.PubKey))), old(wmAttT(bytes(metadata.PubKey))), req.Source.Epoch, req.Target.Epoch, prefix4(req.Domain))
+//@ ensures [rec] result == APPROVED ==> wmAttOk(bytes(metadata.PubKey)) && wmAttS(bytes(metadata.PubKey)) == req.Source.Epoch && wmAttT(bytes(metadata.PubKey)) == req.Target.Epoch
+//@ ensures [keep] result != APPROVED ==> db == old(db)
+//@ ensures [frame] forall k Bytes :: k != attKey(bytes(metadata.PubKey)) ==> ((k in db) <==> (k in old(db))) && db[k] == old(db)[k]
+//@ ensures [compl] store_ok && old(wmAttOk(bytes(metadata.PubKey))) && attOK(old(wmAttS(bytes(metadata.PubKey))), old(wmAttT(bytes(metadata.PubKey))), req.Source.Epoch, req.Target.Epoch, prefix4(req.Domain)) ==> result == APPROVED
+
+//@ iface Service.OnSignBeaconProposal(self, ctx, metadata, req)
+//@ requires metadata != nil && req != nil
+//@ modifies db
+//@ ensures [verdicts] result == APPROVED || result == DENIED || result == FAILED
+//@ ensures [sound] result == APPROVED ==> old(wmPropOk(bytes(metadata.PubKey))) && propOK(old(wmPropL(bytes(metadata.PubKey))), req.Slot, prefix4(req.Domain))
+//@ ensures [rec] result == APPROVED ==> wmPropOk(bytes(metadata.PubKey)) && wmPropL(bytes(metadata.PubKey)) == req.Slot
+//@ ensures [keep] result != APPROVED ==> db == old(db)
+//@ ensures [frame] forall k Bytes :: k != propKey(bytes(metadata.PubKey)) ==> ((k in db) <==> (k in old(db))) && db[k] == old(db)[k]
+//@ ensures [compl] store_ok && old(wmPropOk(bytes(metadata.PubKey))) && propOK(old(wmPropL(bytes(metadata.PubKey))), req.Slot, prefix4(req.Domain)) ==> result == APPROVED
+//@ ensures [wrongdomain] prefix4(req.Domain) != PROP ==> result == DENIED
+
+//@ iface Service.OnSignBeaconAttestations(self, ctx, metadata, req)
+//@ requires [distinct] forall i int, j int :: 0 <= i && i < j && j < len(metadata) && metadata[i] != nil && metadata[j] != nil ==> bytes(metadata[i].PubKey) != bytes(metadata[j].PubKey)
+//@ modifies db
+//@ ensures [len] len(result) == len(req)
+//@ ensures [fresh] fresh(result)
+//@ ensures [verdicts] forall i int :: 0 <= i && i < len(req) ==> result[i] == APPROVED || result[i] == DENIED || result[i] == FAILED || result[i] == UNKNOWN
+//@ ensures [sound-wf] forall i int :: 0 <= i && i < len(req) && result[i] == APPROVED ==> len(metadata) == len(req) && metadata[i] != nil && req[i] != nil && req[i].Source != nil && req[i].Target != nil
+//@ ensures [sound-ok] forall i int :: 0 <= i && i < len(req) && result[i] == APPROVED ==> old(wmAttOk(bytes(metadata[i].PubKey)))
+//@ ensures [sound] forall i int :: 0 <= i && i < len(req) && result[i] == APPROVED ==> attOK(old(wmAttS(bytes(metadata[i].PubKey))), old(wmAttT(bytes(metadata[i].PubKey))), req[i].Source.Epoch, req[i].Target.Epoch, prefix4(req[i].Domain))
+//@ ensures [rec] forall i int :: 0 <= i && i < len(req) && result[i] == APPROVED ==> wmAttOk(bytes(metadata[i].PubKey)) && wmAttS(bytes(metadata[i].PubKey)) == req[i].Source.Epoch && wmAttT(bytes(metadata[i].PubKey)) == req[i].Target.Epoch
+//@ ensures [mono] forall i int :: 0 <= i && i < len(metadata) && metadata[i] != nil && old(wmAttOk(bytes(metadata[i].PubKey))) ==> wmAttOk(bytes(metadata[i].PubKey)) && wmAttS(bytes(metadata[i].PubKey)) >= old(wmAttS(bytes(metadata[i].PubKey))) && wmAttT(bytes(metadata[i].PubKey)) >= old(wmAttT(bytes(metadata[i].PubKey)))
+//@ ensures [frame] forall k Bytes :: (forall i int :: 0 <= i && i < len(metadata) && metadata[i] != nil ==> k != attKey(bytes(metadata[i].PubKey))) ==> ((k in db) <==> (k in old(db))) && db[k] == old(db)[k]
+
+//@ iface Service.OnListAccounts(self, ctx, metadata, req)
+//@ ensures [verdicts] result == APPROVED || result == DENIED || result == FAILED || result == UNKNOWN
+
+//@ iface Service.OnLockWallet(self, ctx, metadata, req)
+//@ ensures [verdicts] result == APPROVED || result == DENIED || result == FAILED || result == UNKNOWN
+
+//@ iface Service.OnUnlockWallet(self, ctx, metadata, req)
+//@ ensures [verdicts] result == APPROVED || result == DENIED || result == FAILED || result == UNKNOWN
+
+//@ iface Service.OnLockAccount(self, ctx, metadata, req)
+//@ ensures [verdicts] result == APPROVED || result == DENIED || result == FAILED || result == UNKNOWN
+
+//@ iface Service.OnUnlockAccount(self, ctx, metadata, req)
+//@ ensures [verdicts] result == APPROVED || result == DENIED || result == FAILED || result == UNKNOWN
+
+//@ iface Service.OnCreateAccount(self, ctx, metadata, req)
+//@ ensures [verdicts] result == APPROVED || result == DENIED || result == FAILED || result == UNKNOWN
+
